@@ -116,7 +116,8 @@ def run_as(run, quick=True):
     try:
         info = {"models": {}}
         for mod, cfg, expect in (("MCAS", "MCAS.cfg", None), ("MCAS", "MCAS_free.cfg", None), ("MCAS", "MCAS_unbounded.cfg", "SendsBounded"),
-                                 ("MCASConformant", "MCASConformant.cfg", None), ("MCASConformant", "MCASConformant_asfound.cfg", "LoginSucceeds")):
+                                 ("MCASConformant", "MCASConformant.cfg", None), ("MCASConformant", "MCASConformant_asfound.cfg", "LoginSucceeds"),
+                                 ("MCASConformant", "MCASConformant_preferred.cfg", "LoginSucceeds")):
             res = vlib.tlc(wd, mod, cfg=cfg, timeout=1200)
             violated = None
             if res.violation:
